@@ -56,7 +56,7 @@ def make_interp(timeout_ms):
     for c in load_contracts():
         I.contracts[c.key] = c
         if c.loops:
-            pass
+            I.loopspecs.setdefault((c.path, c.qualname), {}).update(c.loops)
     for m in getattr(spec, 'EXTRA_INSTALLERS', []):
         m(I)
     return I
@@ -91,14 +91,14 @@ def model_inputs(ob):
 
 
 def run_one(args):
-    idx, timeout_ms = args
+    idx, case_i, timeout_ms = args
     t0 = time.time()
     try:
         from pyvc import spec
         cs = load_contracts()
         c = cs[idx]
         I = make_interp(timeout_ms)
-        r = spec.verify_contract(I, c, timeout_ms)
+        r = spec.verify_contract(I, c, timeout_ms, only_case=case_i)
         obs = []
         for ob in r.obligations:
             obs.append({'name': ob.name, 'status': ob.status, 'time': round(ob.time, 4), 'kind': ob.kind,
@@ -177,8 +177,39 @@ def main(argv=None):
         print('CHECKER-ERROR no contracts serve %s' % pid)
         return 3
     timeout_ms = 10000 if tier == 'quick' else 60000
-    with mp.get_context('fork').Pool(min(a.jobs, len(sel))) as pool:
-        results = pool.map(run_one, [(i, timeout_ms) for i in sel], chunksize=1)
+    from pyvc import spec as _spec
+    tasks = []
+    for i in sel:
+        ncase = len(_spec.case_list(cs[i]))
+        if ncase > 1:
+            tasks.extend((i, k, timeout_ms) for k in range(ncase))
+        else:
+            tasks.append((i, None, timeout_ms))
+    with mp.get_context('fork').Pool(min(a.jobs, len(tasks))) as pool:
+        parts = pool.map(run_one, tasks, chunksize=1)
+    # merge the per-case parts of one contract
+    merged = {}
+    order = []
+    for p_ in parts:
+        k = p_['idx']
+        if k not in merged:
+            merged[k] = p_
+            order.append(k)
+        else:
+            m_ = merged[k]
+            if p_['status'] == 'error' or m_['status'] == 'error':
+                if p_['status'] == 'error':
+                    m_['status'], m_['message'] = 'error', p_['message']
+                continue
+            m_['obligations'].extend(p_['obligations'])
+            for f_ in ('cases', 'paths'):
+                m_[f_] = (m_.get(f_) or 0) + (p_.get(f_) or 0)
+            m_['time'] = round(m_['time'] + p_['time'], 3)
+            m_['inlined'] = sorted({tuple(x) for x in m_['inlined']} | {tuple(x) for x in p_['inlined']})
+            m_['sources'].update(p_.get('sources', {}))
+            if p_['status'] == 'undecided' and m_['status'] == 'ok':
+                m_['status'], m_['message'] = 'undecided', p_['message']
+    results = [merged[k] for k in order]
     # bounded stand-ins and extra per-property python checks registered by contract modules
     from pyvc import spec, replay
     extra = []
